@@ -314,7 +314,7 @@ DEFAULT_WEIGHTS = {
     "merge": 0, "combine": 0, "split": 0, "unsat_core": 0, "pickle": 0, "pickle_expr": 0, "g_truth": 0, "new": 0,
     "add_replacement": 0, "split_recombine": 0, "merge3": 0,
     # multi-step shapes random walks rarely produce (DESIGN 9.6.1); cheap, so on everywhere with a small weight
-    "exhaust_batch": 2, "span_branch_add": 0, "late_unsat": 2, "bridge_split": 0,
+    "exhaust_batch": 2, "span_branch_add": 0, "late_unsat": 2, "bridge_split": 0, "split_cross": 0,
 }
 
 QUERY_KINDS = ("sat", "probe", "eval", "batch_eval", "min", "max", "solution", "is_true", "is_false")
@@ -672,6 +672,9 @@ class HistoryGen:
         elif kind == "bridge_split":
             self.macro_bridge_split(hi, h)
             return
+        elif kind == "split_cross":
+            self.macro_split_cross(hi, h)
+            return
         elif kind == "span_branch_add":
             self.macro_span_branch_add(hi, h, live)
             return
@@ -984,6 +987,43 @@ class HistoryGen:
         self.unknown_handles = min(6, self.unknown_handles + 2)
         for v in r.sample([a, b, c, d], 2):
             self.emit({"op": r.choice(["max", "min"]), "h": {"h_var": v, "h": hi}, "e": ["var", v], "signed": False, "extra": []})
+
+    def macro_split_cross(self, hi, h):
+        """constraints on two different variables, split(), then every part is asked about the OTHER part's variable: a
+        part knows nothing about it (what the unsplit solver had learnt about it must not travel with the part)"""
+        r = self.r
+        if h.ref.kind != "enum":
+            return
+        eg = self.egf(h)
+        if len(eg.bvs) < 2:
+            return
+        a, b = r.sample(eg.bvs, 2)
+
+        def simple(n):
+            w = self.vars[n]
+            return [r.choice(["ule", "uge", "ult", "ugt"]), ["var", n], ["const", r.range(1, max(1, (1 << w) - 2)), w]]
+
+        ca, cb = simple(a), simple(b)
+        self.emit({"op": "add", "h": hi, "cs": [ca]})
+        self.emit({"op": "add", "h": hi, "cs": [cb]})
+        if r.chance(50):
+            self.emit(self.exact_op(h, {"op": "max", "h": hi, "e": ["var", b], "signed": False, "extra": []}))
+        self.emit({"op": "split", "h": hi})
+        self.unknown_handles = min(6, self.unknown_handles + 2)
+        for mine, other, c_other in ((a, b, cb), (b, a, ca)):
+            part = {"h_var": mine, "h": hi}
+            for _ in range(r.range(1, 3)):
+                k = r.choice(["is_true", "is_false", "max", "min", "eval", "solution"])
+                if k == "is_true":
+                    self.emit(self.exact_op(h, {"op": "is_true", "h": part, "e": c_other, "extra": []}))
+                elif k == "is_false":
+                    self.emit(self.exact_op(h, {"op": "is_false", "h": part, "e": ["bnot", c_other], "extra": []}))
+                elif k == "eval":
+                    self.emit(self.exact_op(h, {"op": "eval", "h": part, "e": ["var", other], "n": (1 << self.vars[other]) + 1, "extra": []}))
+                elif k == "solution":
+                    self.emit(self.exact_op(h, {"op": "solution", "h": part, "e": ["var", other], "v": r.below(1 << self.vars[other]), "extra": []}))
+                else:
+                    self.emit(self.exact_op(h, {"op": k, "h": part, "e": ["var", other], "signed": False, "extra": []}))
 
     def macro_merge3(self, hi, h, live):
         """C15: a three-way merge in which two participants share state (branches of one base) and the third has an
@@ -1379,7 +1419,7 @@ PROFILES = {
         "approx_simple_constraints": True,
         "extra_pct": 10,
         "length": (3, 25),
-        "weights": {"batch_eval": 2, "branch": 4, "simplify": 1, "split": 4},
+        "weights": {"batch_eval": 2, "branch": 4, "simplify": 1, "split": 4, "split_cross": 3},
     },
     # the wider approximate alphabet: not run by the registered check (it runs into the known findings A1..A4 all the
     # time); kept to regenerate / re-examine them:  verif.py C13 --profile C13approx_wide --runs N
@@ -1433,7 +1473,7 @@ PROFILES = {
         "var_shapes": FLAG_SHAPES,
         "length": (6, 36),
         "weights": {"branch": 14, "merge": 9, "combine": 8, "split": 6, "add": 24, "new": 4, "split_recombine": 4, "merge3": 4,
-                    "bridge_split": 4},
+                    "bridge_split": 4, "split_cross": 3},
         "never_swarm_out": ("branch",),
         "initial_handles": (1, 2),
         "max_handles": 6,
@@ -1472,7 +1512,7 @@ PROFILES = {
         "initial_handles": (1, 3),
         "length": (5, 30),
         "weights": {"is_true": 18, "is_false": 18, "add": 24, "branch": 10, "g_truth": 6, "eval": 3, "min": 2, "max": 2,
-                    "solution": 1, "batch_eval": 1, "probe": 3, "sat": 3, "new": 2, "simplify": 1, "forget": 2, "split": 5},
+                    "solution": 1, "batch_eval": 1, "probe": 3, "sat": 3, "new": 2, "simplify": 1, "forget": 2, "split": 5, "split_cross": 5},
         "never_swarm_out": ("is_true", "is_false", "branch"),
         "extra_pct": 15,
         "echo_pct": 35,
